@@ -32,7 +32,6 @@ import (
 	"github.com/openGemini/openGemini/lib/statisticsPusher/statistics"
 	"github.com/openGemini/openGemini/lib/util"
 	"github.com/openGemini/openGemini/lib/util/lifted/influx/influxql"
-	"github.com/openGemini/openGemini/lib/util/lifted/influx/meta"
 	"github.com/openGemini/openGemini/lib/util/lifted/protobuf/proto"
 	"go.uber.org/zap"
 )
@@ -381,23 +380,13 @@ func storeTsids(idsResult []uint64, dbptInfo *engine.DBPTInfo, client metaclient
 	}
 	rp := shard.GetRPName()
 	logger.GetLogger().Info("store the tsids to be deleted", zap.Int("count", len(idsResult)))
-	if dbptInfo.GetDelIndexBuilderByRp(rp) == nil {
-		timeRangeInfo := &meta.ShardTimeRangeInfo{
-			ShardDuration: &meta.ShardDurationInfo{
-				DurationInfo: meta.DurationDescriptor{Duration: time.Second}},
-			OwnerIndex: meta.IndexDescriptor{IndexID: engine.DelIndexBuilderId},
-		}
-
-		engineType := shard.GetEngineType()
-		if _, _, _, _, err := dbptInfo.NewMergeSetIndex(rp, timeRangeInfo, client, engineType); err == nil {
-			if err = engine.SetDelMergeSetForEachMergeSet(dbptInfo, rp); err != nil {
-				return err
-			}
-		}
+	delIndexBuilder, err := dbptInfo.OpenDelIndexBuilder(rp, client, shard.GetEngineType())
+	if err != nil {
+		return err
 	}
-	delIndex := dbptInfo.GetDelIndexBuilderByRp(rp).GetPrimaryIndex()
+	delIndex := delIndexBuilder.GetPrimaryIndex()
 
-	err := errors.New("delIndex must be *tsi.MergeSetIndex")
+	err = errors.New("delIndex must be *tsi.MergeSetIndex")
 	if idx, ok := delIndex.(*tsi.MergeSetIndex); ok {
 		if err = idx.Open(); err == nil {
 			err = idx.WriteDeleteTsids(idsResult)
